@@ -22,6 +22,7 @@ def run(tier, prop="C06"):
     locchain.check_chain(rep, f)
     if prop == "C06":
         locchain.check_lookaround(rep, f)
+        locchain.check_inline_spans(rep, f)
         from .smachine import check_reduce_lookahead
         check_reduce_lookahead(rep, f, "driver.")
     return rep
